@@ -94,13 +94,24 @@ def check_h1(rec: core.Recorder, h, data_flat: np.ndarray, weights_flat: Optiona
             f_ok = np.array_equal(freq.astype(float), exp_f.astype(res_dtype).astype(float))
             e_ok = np.array_equal(err2.astype(float), exp_e.astype(res_dtype).astype(float))
     else:
-        n = max(1, len(data_flat))
-        aw = np.abs(weights_flat[~np.isnan(data_flat)]) if weights_flat is not None else np.ones(1)
-        eps = float(np.finfo(res_dtype).eps) if res_dtype.kind == "f" else 2.3e-16
-        tol_f = 4 * n * eps * float(aw.sum() + 1e-300)
-        tol_e = 4 * n * eps * float((aw**2).sum() + 1e-300)
-        f_ok = bool(np.all(np.abs(freq.astype(float) - exp_f) <= tol_f))
-        e_ok = bool(np.all(np.abs(err2.astype(float) - exp_e) <= tol_e))
+        # general float weights: each bin is one floating-point sum over the bin's own weights, so the bound is per bin
+        # (n_k additions of magnitude <= sum |w| of that bin) plus one rounding into the result dtype - light bins next to
+        # heavy ones are held to their own scale, not to the total's
+        aw_all = np.abs(np.asarray(weights_flat, dtype=float)) if weights_flat is not None else np.ones(len(data_flat))
+        m_abs = model.bin_1d(bins, data_flat, aw_all, last_closed=True)
+        m_cnt = model.bin_1d(bins, data_flat, None, last_closed=True)
+        eps_res = float(np.finfo(res_dtype).eps) if res_dtype.kind == "f" else 0.0
+        tiny_res = float(np.finfo(res_dtype).tiny) if res_dtype.kind == "f" else 0.0  # below it a narrow float type rounds to subnormals / zero
+        cnt = model.frac_array(m_cnt.freq) + 2
+        abs_f = model.frac_array(m_abs.freq)
+        abs_e = model.frac_array(m_abs.err2)
+        tol_fk = 4 * cnt * 2.3e-16 * abs_f + 2 * eps_res * np.abs(exp_f) + tiny_res + 1e-300
+        tol_ek = 4 * cnt * 2.3e-16 * abs_e + 2 * eps_res * np.abs(exp_e) + tiny_res + 1e-300
+        n_under, n_over = float(m_cnt.underflow) + 2, float(m_cnt.overflow) + 2
+        tol_u = 4 * n_under * 2.3e-16 * float(m_abs.underflow) + 2 * eps_res * abs(float(m.underflow)) + tiny_res + 1e-300
+        tol_o = 4 * n_over * 2.3e-16 * float(m_abs.overflow) + 2 * eps_res * abs(float(m.overflow)) + tiny_res + 1e-300
+        f_ok = bool(np.all(np.abs(freq.astype(float) - exp_f) <= tol_fk))
+        e_ok = bool(np.all(np.abs(err2.astype(float) - exp_e) <= tol_ek))
     if not f_ok:
         fail("bin contents differ from the weight of the values inside each bin", ["frequencies"],
              got=freq, expected=exp_f, bins=bins)
@@ -116,8 +127,8 @@ def check_h1(rec: core.Recorder, h, data_flat: np.ndarray, weights_flat: Optiona
                 u_ok = float(uf) == float(np.asarray(eu).astype(res_dtype))
                 o_ok = float(of) == float(np.asarray(eo).astype(res_dtype))
             else:
-                u_ok = abs(float(uf) - eu) <= tol_f
-                o_ok = abs(float(of) - eo) <= tol_f
+                u_ok = abs(float(uf) - eu) <= tol_u
+                o_ok = abs(float(of) - eo) <= tol_o
             if not u_ok:
                 fail("underflow differs from the weight below the first edge", ["underflow"], got=uf, expected=eu)
             if not o_ok:
